@@ -7,16 +7,31 @@ import PegVerif.Proofs.SwitchSafeDef
 import PegVerif.Proofs.InlineSwitchSafeDef
 import PegVerif.Proofs.NoastSwitchSafeDef
 import PegVerif.Proofs.InlineNoastSafeDef
+import PegVerif.Proofs.FastCheckDef
+import PegVerif.Proofs.KactsDef
 /-
   The one decidable hypothesis of the summary theorems of `Props/AllOptions.lean`, in a file of its
   own (definitions only; it imports exactly what `Exec/Driver.lean` imports already) so that a
   driver can evaluate the very definition the theorems use.
 
-  Nothing new is computed here: `theoremApplies` is a conjunction of the existing Bool checkers
+  Nothing new is decided here: `theoremApplies` is a conjunction of the existing Bool checkers
   (`WFB`, `GrammarOK`, `LinkedOK`, `Expr.plain`, and the side condition of the option set:
   `GrammarOKI`, `switchSafe`, `inlineSwitchSafe`, `GrammarOKN`, `inlineNoastSafe`, `noastSwitchSafe`,
   `inlineNoastSwitchSafe`), selected by the three option bits.  `&&` is lazy: the option set's
   checker is only run when the default parser's hypotheses hold.
+
+  Cost.  `GrammarOK`, `GrammarOKS`, `GrammarOKI`, `GrammarOKIS` recompute the reachability closure /
+  the emitted program per rule and per reference (cubic in the number of rules); `theoremApplies`
+  evaluates the versions of `Proofs/FastCheckDef.lean` instead (`GrammarOKfast`, `GrammarOKIfast`,
+  `switchSafeFast`, `inlineSwitchSafeFast`, `noastSwitchSafeKfast`), which share those quantities
+  between the rules and are PROVED EQUAL to the originals in `Proofs/FastCheck.lean`
+  (`GrammarOKfast_eq`, …): the table in `Props/AllOptions.lean` lists the originals.
+
+  `-noast`.  The four `-noast` side conditions are the `K`-parametrised checkers (`GrammarOKN K`,
+  `inlineNoastSafeK K`, `noastSwitchSafeK K`, `inlineNoastSwitchSafeK K`) at the kit `Kacts`
+  (`Proofs/KactsDef.lean`: the trace entries of actions are compared, those of state-change
+  statements are not), so grammars with state-change statements are covered; the `Kall` instances
+  (`inlineNoastSafe`, …: no statements) imply them (`Proofs/Kacts.lean`).
 -/
 namespace PegVerif
 open Noast
@@ -26,9 +41,10 @@ def dfltOpts : Opts := { inline := false, switch := false, ast := true }
 
 /-- The hypotheses of the default parser's end-to-end theorem (`C01_wellformed`) on the linked
     grammar `G`: Ford's well-formedness, `GrammarOK`, `LinkedOK`, and no `-inline`/`-switch` node
-    in any rule body (from which `G.plain` follows by `Grammar.plain_of_all`). -/
+    in any rule body (from which `G.plain` follows by `Grammar.plain_of_all`).
+    `GrammarOKfast G = GrammarOK G` (`GrammarOKfast_eq`). -/
 def defaultParserOK (G : Grammar) : Bool :=
-  WFB G && GrammarOK G && LinkedOK G && G.rules.all (fun r => r.body.plain)
+  WFB G && GrammarOKfast G && LinkedOK G && G.rules.all (fun r => r.body.plain)
 
 /-- The side condition of the option set `o` itself (table in `Props/AllOptions.lean`).  `G` is the
     linked grammar, `G'` the grammar the emission works on; `G'` is READ ONLY WHEN `o.switch`
@@ -36,13 +52,13 @@ def defaultParserOK (G : Grammar) : Bool :=
 def optionSetOK (o : Opts) (G G' : Grammar) : Bool :=
   match o.inline, o.switch, o.ast with
   | false, false, true  => true                          -- ''   Props/C01.lean
-  | true,  false, true  => GrammarOKI G                   -- i    Props/C02.lean
-  | false, true,  true  => switchSafe G G'                -- s    Props/C02Switch.lean
-  | true,  true,  true  => inlineSwitchSafe G G'          -- is   Props/C02InlineSwitch.lean
-  | false, false, false => GrammarOKN (Kall G) G          -- n    Props/C07.lean
-  | true,  false, false => inlineNoastSafe G              -- in   Props/C07Inline.lean
-  | false, true,  false => noastSwitchSafe G G'           -- sn   Props/C07Switch.lean
-  | true,  true,  false => inlineNoastSwitchSafe G G'     -- isn  Props/C07Inline.lean
+  | true,  false, true  => GrammarOKIfast G               -- i    Props/C02.lean            (= GrammarOKI G)
+  | false, true,  true  => switchSafeFast G G'            -- s    Props/C02Switch.lean      (= switchSafe G G')
+  | true,  true,  true  => inlineSwitchSafeFast G G'      -- is   Props/C02InlineSwitch.lean (= inlineSwitchSafe G G')
+  | false, false, false => noastSafeA G                   -- n    Props/C07.lean            (GrammarOKN (Kacts G) G)
+  | true,  false, false => inlineNoastSafeA G             -- in   Props/C07Inline.lean      (inlineNoastSafeK (Kacts G) G)
+  | false, true,  false => noastSwitchSafeA G G'          -- sn   Props/C07Switch.lean      (= noastSwitchSafeK (Kacts G') G G')
+  | true,  true,  false => inlineNoastSwitchSafeA G G'    -- isn  Props/C07Inline.lean      (inlineNoastSwitchSafeK (Kacts G') G G')
 
 /-- **The decidable hypothesis of `all_options_same_verdict` / `all_options_run_exists`**: the
     default parser's hypotheses on the linked grammar `G` and the side condition of the option set
